@@ -4,7 +4,7 @@
     checked by computation); a predicate [p x] used as a proposition means
     [p x = true] through the coercion-free convention [ok (p x)]. *)
 From HP Require Import Base.Bytes Base.Utf8 Base.Num Model.Scanner Model.Parser Model.Elements
-     Model.Dates Model.Writer Model.Reporters.
+     Model.Dates Model.Writer Model.Reporters Model.Cli.
 Open Scope N_scope.
 
 (** *** byte-level tests *)
@@ -182,4 +182,15 @@ Section PrintSpec.
     | ScanEOF => lognodes_of toks (events NM data)
     | _ => None
     end.
+
+  (** *** the setting in which the command is considered: the world has the log
+      file [data] under the configured name, reads of it do not fail, standard
+      output never fails, the layout is one the model covers, no period is set *)
+  Definition print_setting (w : world) (op : options) (data : bytes) (toks : list ltoken) : Prop :=
+    w_sink w = None
+    /\ op_log op <> []
+    /\ lookup_fs w (op_log op) = Some (FFile data)
+    /\ lookup (op_log op) (w_read_fault w) = None
+    /\ tokenize (op_fmt op) = Some toks
+    /\ op_begin op = None /\ op_end op = None.
 End PrintSpec.
